@@ -53,14 +53,22 @@ def run(cmd, timeout=None, mem_mb=None, cwd=None, env=None):
         pre = 'ulimit -v %d; ' % (mem_mb * 1024)
     t0 = time.time()
     sh = pre + 'exec ' + ' '.join(shquote(c) for c in cmd)
+    # own process group: a timeout must also kill the solver child processes cbmc spawns (z3, cvc5, kissat)
+    p = subprocess.Popen(['bash', '-c', sh], stdout=subprocess.PIPE, stderr=subprocess.PIPE, cwd=cwd, env=env,
+                         start_new_session=True)
     try:
-        p = subprocess.run(['bash', '-c', sh], stdout=subprocess.PIPE, stderr=subprocess.PIPE, timeout=timeout,
-                           cwd=cwd, env=env)
-        return p.returncode, p.stdout.decode('utf-8', 'replace'), p.stderr.decode('utf-8', 'replace'), time.time() - t0
-    except subprocess.TimeoutExpired as e:
-        out = (e.stdout or b'').decode('utf-8', 'replace')
-        err = (e.stderr or b'').decode('utf-8', 'replace')
-        return 124, out, err, time.time() - t0
+        out, err = p.communicate(timeout=timeout)
+        return p.returncode, out.decode('utf-8', 'replace'), err.decode('utf-8', 'replace'), time.time() - t0
+    except subprocess.TimeoutExpired:
+        try:
+            os.killpg(p.pid, 9)
+        except Exception:
+            pass
+        try:
+            out, err = p.communicate(timeout=10)
+        except Exception:
+            out, err = b'', b''
+        return 124, (out or b'').decode('utf-8', 'replace'), (err or b'').decode('utf-8', 'replace'), time.time() - t0
 
 
 def shquote(s):
